@@ -159,6 +159,7 @@ class StoreMachine(Machine):
         files = self.files_of(name, cfg)
         want = self.snap(obj)
         before = dict(ctx.fs.files)
+        step_before = ctx.fs.step
         status, _ = self.io(lambda: self.write(obj, name, cfg), fault,
                             lambda: self.write(copy.deepcopy(obj), name, cfg), 'write')
         ctx.stats['W_' + status] += 1
@@ -172,6 +173,14 @@ class StoreMachine(Machine):
         if status == 'ok':
             self.after_write(name, cfg, want)
             self.ref[name] = {'state': 'ack', 'snap': want, 'cfg': cfg, 'files': files}
+            if ctx.fs.fired and ctx.fs.fired[-1][3] > step_before:
+                # O3: a fault fired inside this write and it returned normally all the same: the
+                # acknowledgement must be honest -- read it back at once, fault free
+                ctx.probes['O3_fault_inside_acknowledged_write'] += 1
+                st, obj = self.io(lambda: self.read(name, cfg), None, None, 'read after a write '
+                                  'that returned normally despite an injected fault')
+                self.compare(want, self.snap(obj), cfg, 'O3: write of %r returned normally although '
+                             'a %s fault fired inside it' % (name, ctx.fs.fired[-1][0]))
             ctx.state_changes += 1
             for f in files:
                 ctx.digest.add('W', f, ctx.fs.files.get(f))
